@@ -165,6 +165,14 @@ func Run(run *vk.Run, prop string) {
 		return
 	}
 	run.AddTLC(res)
+	// thorough: the bounded runs cover retry budgets -1 .. MaxRetries; the proof (attempt bound of C14, no
+	// effects of measurement-only / dry runs of C15) holds for any budget and any number of other writers
+	if !run.IsQuick() {
+		if _, err := vk.RunTLAPS(run, "EndorseCommitProof", 20*time.Minute); err != nil {
+			run.Infra(err)
+			return
+		}
+	}
 	for _, neg := range []string{"Neg_EndorseCommit_dryrun.cfg", "Neg_EndorseCommit_cached.cfg"} {
 		if _, err := vk.RunTLC(vk.TLCOpts{Module: "EndorseCommit", Config: neg, Timeout: 5 * time.Minute, ExpectViolation: true}); err != nil {
 			run.Infra(err)
@@ -280,6 +288,7 @@ func Run(run *vk.Run, prop string) {
 	})
 	if prop == "C15" {
 		sweepC15(run)
+		sweepC15CLI(run)
 	}
 	if run.Failed() {
 		// still validate traces for the evidence, but predicates already decided
